@@ -480,6 +480,9 @@ func (r *c01Run) finalProbes() {
 }
 
 func c01Run1(c *fw.Ctx) {
+	{
+		interfRun(c, "C01") // statement-level interleavings of handlers / connection users (subprocess)
+	}
 	// quick: 29 symbols to depth 3. thorough: the same 29 symbols to depth 4, and the full alphabet (the second
 	// adversary connection with every operation, 39 symbols) to depth 3.
 	alpha := c01Alphabet(false)
@@ -546,7 +549,7 @@ func init() {
 	fw.Register(&fw.Check{
 		ID:    "C01",
 		Level: "model_checking",
-		Rule:  "every history of length 3 (quick) / 4 (thorough) over 29 symbols, in thorough also every history of length 3 over 39 symbols (second adversary connection with every operation), and every history of length 2 / 3 from two non-initial states (L verified and subscribed; the same with adversary connections already open and a value changed): two adversary connections X1, X2 (plaintext GET /accessories, GET /characteristics, PUT value, PUT ev, POST /resource, POST /pairings add / remove, pair-verify start, forged and zero-key finish, pair-setup start and wrong-code verify, a request sealed under keys derived from its own exchange, a fresh exchange finished with a correctly sealed message naming L or the accessory itself under the adversary's signature and at once followed by ciphertext under that exchange's keys, reopen, reconnect from exactly the source address and port the legitimate controller used), a legitimate controller L (verify, changing write, subscribe, close, and a pair-verify whose finish request is split with Expect: 100-continue so that its handler overlaps with the events that follow) and the application (set value), against the real transport (with /resource registered) over TCP, fresh system per history. After EVERY event: each protected operation on a connection the model holds as unverified is refused (status not 2xx, body discloses no attribute, value or canary — checked as plaintext and after decryption under every key the adversary holds), no EVENT precedes a barrier request on any adversary connection, characteristic values / every application callback counter / stored pairings are exactly what the model says; at the end of every history L (if verified) must still be served and every live adversary connection must still answer in plaintext, refuse, and not serve ciphertext under its own exchange keys. states = histories executed (each judges all its prefixes)",
+		Rule:  "every history of length 3 (quick) / 4 (thorough) over 29 symbols, in thorough also every history of length 3 over 39 symbols (second adversary connection with every operation), and every history of length 2 / 3 from two non-initial states (L verified and subscribed; the same with adversary connections already open and a value changed): two adversary connections X1, X2 (plaintext GET /accessories, GET /characteristics, PUT value, PUT ev, POST /resource, POST /pairings add / remove, pair-verify start, forged and zero-key finish, pair-setup start and wrong-code verify, a request sealed under keys derived from its own exchange, a fresh exchange finished with a correctly sealed message naming L or the accessory itself under the adversary's signature and at once followed by ciphertext under that exchange's keys, reopen, reconnect from exactly the source address and port the legitimate controller used), a legitimate controller L (verify, changing write, subscribe, close, and a pair-verify whose finish request is split with Expect: 100-continue so that its handler overlaps with the events that follow) and the application (set value), against the real transport (with /resource registered) over TCP, fresh system per history. After EVERY event: each protected operation on a connection the model holds as unverified is refused (status not 2xx, body discloses no attribute, value or canary — checked as plaintext and after decryption under every key the adversary holds), no EVENT precedes a barrier request on any adversary connection, characteristic values / every application callback counter / stored pairings are exactly what the model says; at the end of every history L (if verified) must still be served and every live adversary connection must still answer in plaintext, refuse, and not serve ciphertext under its own exchange keys. states = histories executed (each judges all its prefixes) Plus, in a subprocess built with a scheduling point before EVERY statement of hc's packages (textual insertion through go build -overlay): every interleaving with at most 1 (thorough 2) preemptions of pairs of handlers / users of connections on one accessory (a verified and a newly accepted unverified connection; two writers, a writer and the reader of one encrypted connection, writers on two connections) — each side must observe exactly what it observes when the two run one after the other.",
 		Run:   c01Run1,
 		Replay: func(c *fw.Ctx, raw json.RawMessage) {
 			var cas c01Case
